@@ -248,7 +248,7 @@ theorem deleted_eq {lb : Nat} {m : PMap} (h : KeysFrom lb m) (v lo hi : Nat) :
       have ih' := ih h.2
       simp only [seqsOf, hnone, List.filter_nil] at ih'
       rw [(filter_hit_same k lo hi q.last q.seqs).1, ih']
-      simp [seqsOf, lookup_cons_eq]
+      simp [seqsOf]
     · rw [(filter_hit_other hk lo hi q.last q.seqs).1, ih h.2]
       have : ¬ v = k := fun he => hk he.symm
       simp [seqsOf, lookup_cons_ne this]
@@ -380,7 +380,7 @@ theorem seqRowInsert_put {lb : Nat} {m : PMap} (h : KeysFrom lb m) (v lo hi a b 
         rw [this]
         simp only [seqRowsOf, hl]
         rw [seqRowInsert_block v last _ _ a b hY]
-        simp [pmPut, seqsOf, lookup_cons_eq, seqRowsOf]
+        simp [pmPut, seqsOf, seqRowsOf]
       · have hgt : k < v := by omega
         have hk : ¬ k = v := by omega
         simp only [pmFilt, List.map_cons, hk, if_false, seqRowsOf] at *
